@@ -417,6 +417,13 @@ class Inst:
         s.extra.append('%s%s %s;' % ('static ' if s.resumable else '', ct, nm))
         return nm
 
+    def tso_here(s):
+        """store buffering is modelled for this instance's slot (spec tso_slots: subset of slots; default all)"""
+        if not s.em.tso:
+            return False
+        ts = s.em.spec.get('tso_slots')
+        return ts is None or s.slot in ts
+
     def raw(s, name):
         if s.resumable:
             return '%s_r_%s' % (s.prefix, san(name))
@@ -652,7 +659,8 @@ class Inst:
         d = desc.replace('*/', '* /')[:90]
         if s.walk:
             s.body.append(Ctl('if (m == RT_SKIP && %s_pc == %d) m = RT_RUN; if (m == RT_RUN && RT_YIELD()) { %s_pc = %d; m = RT_STOP; } '
-                              'if (m == RT_RUN) { RT_STEP(%d); } /* V%d %s */' % (s.prefix, k, s.prefix, k, s.slot, k, d)))
+                              '%s/* V%d %s */' % (s.prefix, k, s.prefix, k,
+                                                   ('if (m == RT_RUN) { RT_STEP(%d); } ' % s.slot) if s.tso_here() else '', k, d)))
         else:
             s.body.append('V%d: if (RT_YIELD()) { %s_pc = %d; return; } RT_STEP(%d); /* %s */' % (k, s.prefix, k, s.slot, d))
         return k
@@ -764,7 +772,7 @@ class Inst:
                 T.need_complete(ins.ty)
             if vis:
                 s.yield_point('load %s' % (ins.line or '')[:70])
-            if vis and s.resumable and em.tso:
+            if vis and s.resumable and s.tso_here():
                 body.append(s.tso_load(ins, p, lv, st))
             else:
                 if st is not None and s.isp(ins.res):
@@ -782,7 +790,7 @@ class Inst:
                 ve = '(%s)%s' % (T.ct(st), s.pv(val))
             else:
                 ve = s.v(val)
-            if vis and s.resumable and em.tso:
+            if vis and s.resumable and s.tso_here():
                 body.append(s.tso_store(ins, p, val, ve, st))
             else:
                 body.append('%s = %s;' % (lv, ve))
@@ -976,7 +984,7 @@ class Inst:
             # plain-mode harness function executed as one step
             em.atomic_needed.add((n, s.slot))
             s.yield_point('atomic %s' % n)
-            if s.resumable and em.tso and n not in em.spec.get('nodrain', ()):
+            if s.resumable and s.tso_here() and n not in em.spec.get('nodrain', ()):
                 body.append('rt_sb_drain(%d);' % s.slot)
             body.append('%sF%d_%s(%s);' % (res, s.slot, san(n), ', '.join(s.v(a) for a in args)))
             if n in em.spec.get('blocking_atomic', ()):
@@ -1013,7 +1021,7 @@ class Inst:
         vis = pname not in em.invisible_prims and n not in em.invisible_prims
         if vis:
             s.yield_point('prim %s' % pname)
-            if s.resumable and em.tso:
+            if s.resumable and s.tso_here():
                 body.append('rt_sb_drain(%d);' % s.slot)
         al = []
         for a in args:
@@ -1110,7 +1118,7 @@ class Inst:
         em = s.em; T = em.T; body = s.body
         args = ins.args
         s.yield_point('prim %s' % n)
-        if s.resumable and em.tso:
+        if s.resumable and s.tso_here():
             body.append('rt_sb_drain(%d);' % s.slot)
         r = s.raw(ins.res) if ins.res is not None else None
         if n == 'free':
@@ -1154,7 +1162,7 @@ class Inst:
             vis = s.is_visible_ptr(dst) or (not n.startswith('llvm.memset') and s.is_visible_ptr(a[1]))
             if vis:
                 s.yield_point(n)
-                if s.resumable and em.tso:
+                if s.resumable and s.tso_here():
                     body.append('rt_sb_drain(%d);' % s.slot)
             ln = a[2]
             dpt = s.info.origin_pointee(dst)
@@ -1210,7 +1218,7 @@ class Inst:
         vis = s.is_visible_ptr(p)
         if vis:
             s.yield_point(ins.op)
-            if s.resumable and em.tso:
+            if s.resumable and s.tso_here():
                 body.append('rt_sb_drain(%d);' % s.slot)
         if ins.op == 'atomicrmw':
             val = ins.args[1]
